@@ -521,6 +521,18 @@ pub fn property() -> Property {
                 small_stack: false,
             },
             Sub {
+                name: "fuzz_corpus_replay",
+                about: "every committed seed and saved artifact of the libFuzzer target fz_total (bytes -> rule text, newline, data text -> serde_json::from_str x2 -> apply) replayed through the target's own body in the ordinary build; the thorough tier additionally runs the coverage-guided campaign (16 forks).",
+                nontrivial: "the input parses as two JSON texts and is evaluated.",
+                strategy: None,
+                fixed: Some(|| fuzz_corpus_cases("fz_total")),
+                fixed_exhaustive: false,
+                check: check_fuzz_case,
+                quick: 0,
+                thorough: 0,
+                small_stack: true,
+            },
+            Sub {
                 name: "cli_known_corners",
                 about: "12 corner inputs (i64::MIN indices and lengths, overflowing products feeding var, i64::MIN % -1, ...) through the dev and release jsonlogic binaries.",
                 nontrivial: "an extreme operand.",
